@@ -219,10 +219,10 @@ def run(r) -> None:
         nrot = len(bodies.rotations_2d() if planar else bodies.rotations_3d())
         dens = [8] if not kind.startswith("surface") else [8, 1, 4, 12]
         for n_elems in (2, 3, 5):
-            for taper in (False, True):
+            for taper in ((False, True, "reverse", "spindle", "spindle-rev") if kind.startswith("surface") else (False, True, "spindle")):
                 for bent in (False, True):
                     for density in dens:
-                        rots = range(nrot) if (not quick or (n_elems == 3 and taper and bent and density == dens[0])) else (0, nrot - 1)
+                        rots = range(nrot) if (not quick or (n_elems == 3 and taper is True and bent and density == dens[0])) else (0, nrot - 1)
                         for ri in rots:
                             rods.append(dict(kind=kind, n_elems=n_elems, taper=taper, bent=bent, rot_idx=ri, density=density, seed=r.seed))
                         if bent and density == dens[0]:
